@@ -67,8 +67,22 @@ def names_of(D, n_x=0, prefix='x'):
     return list(D.names) + ['%s%d' % (prefix, i) for i in range(n_x)]
 
 
+def raised_in_eao(exc):
+    """does the traceback pass through the repository's code? (an exception raised purely inside the harness is a harness error)"""
+    import os
+    root = os.path.realpath(lift.repo_path())
+    tb = exc.__traceback__
+    while tb is not None:
+        if os.path.realpath(tb.tb_frame.f_code.co_filename).startswith(root):
+            return True
+        tb = tb.tb_next
+    return False
+
+
 def crash_candidate(rec, name, path, D, info=None):
     """an exception on a feasible path inside the domain: candidate violation, replayed by building at a point of the path"""
+    if not raised_in_eao(path.exc):
+        raise RuntimeError('harness error (exception outside the repository code): %s: %s' % (type(path.exc).__name__, path.exc)) from path.exc
     env = generic_point(list(D.pre) + path.pc + sym.atom_constraints(), D.names, 0)
     rec.obligations.append(dict(name=name, verdict='sat', secs=0.0, form='crash'))
     rec.distinct.add(name)
